@@ -62,7 +62,7 @@ def obligations(tier):
         for exc in EXC_TYPES:
             for mode in ('call', 'notif', 'batch0', 'batch1'):
                 obs.append({'h': 'exc', 'exc': exc, 'mode': mode, 'disp': d})
-        for why in ('empty', 'nonrequest0', 'nonrequest1', 'dup', 'over'):
+        for why in ('empty', 'nonrequest0', 'nonrequest1', 'dup', 'over', 'dupstr', 'dup3', 'dupmix', 'dupmix5', 'dupnotif'):
             obs.append({'h': 'badbatch', 'why': why, 'disp': d})
     return obs
 
@@ -311,6 +311,30 @@ def h_badbatch(ob):
         elif why == 'dup':
             env.assume(a['id'] == b['id'])
             doc = [a, b]
+        elif why in ('dupstr', 'dup3', 'dupmix', 'dupmix5', 'dupnotif'):
+            # duplicated ids of either JSON type, several duplicated ids at once, non-adjacent positions
+            def el(i, idv):
+                return {'jsonrpc': '2.0', 'method': 'echo', 'params': [i], 'id': idv}
+            if why == 'dupstr':
+                ids = [env.str('s0', 2), env.str('s1', 2)]
+                env.assume(ids[0] == ids[1])
+            elif why == 'dup3':
+                ids = [env.int('i0'), env.int('i1'), env.int('i2')]
+                env.assume(ids[0] == ids[2])
+                env.assume(ids[0] != ids[1])
+            elif why == 'dupnotif':
+                ids = [env.int('i0'), None, env.int('i2')]
+                env.assume(ids[0] == ids[2])
+            else:
+                ids = [env.int('i0'), env.str('s1', 2), env.int('i2'), env.str('s3', 2)]
+                env.assume(ids[0] == ids[2])
+                env.assume(ids[1] == ids[3])
+                if why == 'dupmix5':
+                    ids.insert(2, env.int('i4'))
+            doc = [el(i, v) for i, v in enumerate(ids)]
+            for e in doc:
+                if e['id'] is None:
+                    del e['id']
         else:
             env.assume(a['id'] != b['id'])
             mbs = env.int('mbs', 1, 1)
